@@ -33,6 +33,55 @@ def gen_cases(rng, tier, scale):
         for name, tpl in (('AB', A + '|' + B), ('A', A + '|'), ('B', '|' + B), ('S', '|' + A + '|'), ('R', '|' + (A + '|') * rep)):
             cases.append(rcase(f'{grp}{name}', tpl, data, pre=pre, partials=parts, entry=0, kind=name, grp=grp, rep=rep,
                                tags=[name]))
+    # composition INSIDE a partial that received a block, and inside a block body that a partial renders: there the
+    # @partial-block binding is observable, so a construct that leaks it changes what a later sibling renders
+    ATOMS = ['t', '{{> @partial-block}}', '{{> leaf}}', '{{#> p1}}u{{/p1}}', '{{#> p1}}{{> @partial-block}}{{/p1}}',
+             '{{#if yes}}{{> @partial-block}}{{/if}}', '{{#each two}}{{> @partial-block}}{{/each}}', '{{{v}}}', '{{v}}',
+             '{{#> nolayout}}{{> @partial-block}}{{/nolayout}}', '{{#> p1}}{{#> p1}}{{> @partial-block}}{{/p1}}{{/p1}}', '{{> leaf v=1}}',
+             '{{#with o}}{{> @partial-block}}{{/with}}']
+    WRAPS = [('{{#> lay}}[{{v}}]{{/lay}}', 'lay', None),
+             ('{{#> outer}}C{{v}}{{/outer}}', 'body', '[{{#> inner}}%s{{/inner}}]')]
+    mpb = (150 if tier == 'quick' else 3000) * scale
+    for k in range(mpb):
+        data = {'v': '<&>', 'yes': True, 'two': [1, 2], 'o': {'v': 'in'}}
+        A = ''.join(rng.choice(ATOMS) for _ in range(rng.randint(1, 3)))
+        B = ''.join(rng.choice(ATOMS) for _ in range(rng.randint(1, 3)))
+        main, slot, frame = WRAPS[k % 2]
+        rep = rng.randint(2, 4)
+        grp = f'pc{k}'
+        for name, tpl in (('AB', A + '|' + B), ('A', A + '|'), ('B', '|' + B), ('S', '|' + A + '|'), ('R', '|' + (A + '|') * rep)):
+            parts = {'p1': '<{{> @partial-block}}>', 'leaf': 'L{{v}}', 'inner': '({{> @partial-block}})'}
+            if slot == 'lay':
+                parts['lay'] = tpl
+            else:
+                parts['outer'] = frame % tpl
+            cases.append(rcase(f'{grp}{name}', main, data, partials=parts, entry=0, kind=name, grp=grp, rep=rep, wrap=slot,
+                               tags=['in-partial:' + slot]))
+    # a construct that writes nothing leaves no trace: T' = T with an empty construct inserted directly in front of a
+    # non-blank text character (so it is never alone on its line) renders like T — inside indented partials, partials
+    # entered in the middle of a line, after `~` tags, inside blocks
+    EMPTIES = ['{{> empty}}', '{{#> empty}}d{{/empty}}', '{{#if no}}x{{/if}}', '{{#each none}}x{{/each}}', '{{e}}', '{{{e}}}',
+               '{{#with o}}{{#if no}}x{{/if}}{{/with}}', '{{> empty}}{{> empty}}', '{{#if yes}}{{e}}{{/if}}', '{{#*inline "zz"}}q{{/inline}}']
+    LINES = ['text\n', 'next {{v}}\n', '{{v}} w\n', 'k:{{#if yes}}y{{/if}};\n', '{{#each two}}\n i{{this}}\n{{/each}}\n',
+             'x{{> leaf}}y\n', '  {{> leaf}}\n', 'p\n\nq\n', '{{#if yes~}}\n  t\n{{/if}}\n', 'last']
+    mne = (150 if tier == 'quick' else 3000) * scale
+    for k in range(mne):
+        data = {'v': 'V', 'yes': True, 'no': False, 'two': [1, 2], 'none': [], 'e': '', 'o': {'v': 'in'}}
+        body = lambda: ''.join(rng.choice(LINES) for _ in range(rng.randint(1, 3)))
+        parts = {'empty': '', 'leaf': 'L\nl2\n', 'mid': body(), 'outer': 'head\n{{> mid}}| tail\n' + body()}
+        main = rng.choice(['a\n    {{> outer}}\nz', 'abc\n{{~#if yes}}\n  {{> mid}}\n{{/if}}', '{{> outer}}', '\t{{> mid}}\n', 'a {{> outer}} z'])
+        which = rng.choice(['mid', 'outer', 'mid'])
+        src = parts[which]
+        spots = [i for i, ch in enumerate(src) if ch not in ' \t\r\n{}' and (i == 0 or src[i - 1] not in '{#/>~') and src.count('{{', 0, i) == src.count('}}', 0, i)]
+        if not spots:
+            continue
+        i = rng.choice(spots)
+        E = rng.choice(EMPTIES)
+        parts2 = dict(parts)
+        parts2[which] = src[:i] + E + src[i:]
+        grp = f'ne{k}'
+        cases.append(rcase(f'{grp}T', main, data, partials=parts, entry=0, kind='noopT', grp=grp, tags=['noop-insert']))
+        cases.append(rcase(f'{grp}U', main, data, partials=parts2, entry=0, kind='noopU', grp=grp, E=E, tags=['noop-insert']))
     # state probes between siblings
     m = (100 if tier == 'quick' else 1500) * scale
     for k in range(m):
@@ -63,9 +112,22 @@ def oracle_all(byid):
                     if strip(sts[0]) != strip(sts[1]):
                         out.append((c, f'render state differs after a finished construct: {sts[0]} vs {sts[1]}'))
             continue
+        if 'noopT' in d and 'noopU' in d:
+            (ct, t), (cu, u) = d['noopT'], d['noopU']
+            if t['kind'] == 'ok' and (u['kind'] != 'ok' or u['out'] != t['out']):
+                out.append((cu, f'inserting {cu["E"]} (which writes nothing) changes the rendering: {t["out"]!r} becomes {u.get("out", u.get("reason"))!r}'))
+            continue
         if not all(k in d for k in ('AB', 'A', 'B', 'R', 'S')):
             continue
         (cab, ab), (ca, a), (cb, b), (cr, rr), (cs, ss) = d['AB'], d['A'], d['B'], d['R'], d['S']
+        if cab.get('wrap'):
+            # the composed text sits inside the fixed frame the wrapper partials write: strip it
+            pre_, suf_ = ('', '') if cab['wrap'] == 'lay' else ('[(', ')]')
+            def inner(r):
+                if r['kind'] == 'ok' and r['out'].startswith(pre_) and r['out'].endswith(suf_):
+                    return dict(r, out=r['out'][len(pre_):len(r['out']) - len(suf_)])
+                return r
+            ab, a, b, rr, ss = inner(ab), inner(a), inner(b), inner(rr), inner(ss)
         if a['kind'] == 'ok' and b['kind'] == 'ok':
             exp = a['out'][:-1] + b['out'] if a['out'].endswith('|') else None
             if exp is not None:
@@ -92,13 +154,3 @@ def nontrivial(c, mo, io):
 def relevant_difference(c, mo, io):
     return res_of(mo).get('out') != res_of(io).get('out') or res_of(mo)['kind'] != res_of(io)['kind']
 
-def known_F4_current_template(c, mo, io):
-    import re
-    r = res_of(io)
-    if c['kind'] != 'state' or r['kind'] != 'ok':
-        return False
-    sts = re.findall(r'state\([^)]*\)', r['out'])
-    if len(sts) != 2:
-        return False
-    strip = lambda s: re.sub(r';(tn|cp|ibw)=[01]', '', re.sub(r';cur=[^;]*', '', s))
-    return strip(sts[0]) == strip(sts[1])
